@@ -116,6 +116,21 @@ D['equal_constants'] = ('''
     def up_o(): s.out @= s.in_ + s.c1 + s.l.out
 ''', [('s.c1', '5'), ('s.c2', '5'), ('s.k1', 's.c1'), ('s.k2', 's.c2'), ('s.l.in_', '5')])
 
+# the writer is a FIELD / a SLICE and the net has several whole-signal readers next to field readers of other structs
+D['field_writer_mixed_readers'] = ('''
+    s.in_ = InPort(In2); s.mid = Wire(In2); s.w = Wire(4); s.out = OutPort(4); s.outb = OutPort(4)
+''', [('s.mid.b', 's.in_.a'), ('s.w', 's.in_.a'), ('s.out', 's.w'), ('s.outb', 's.mid.b')])
+D['block_field_writer_mixed_readers'] = ('''
+    s.in_ = InPort(8); s.p = Wire(In2); s.q = Wire(Out3); s.r = Wire(In2); s.w = Wire(4); s.o1 = OutPort(4); s.o2 = OutPort(4); s.o3 = OutPort(2); s.x = Wire(8)
+    @update
+    def up_pa():
+      s.p.a @= s.in_[0:4] + 1
+      s.p.b @= s.in_[4:8]
+''', [('s.q.p.b', 's.p.a'), ('s.r.a', 's.p.a'), ('s.w', 's.r.a'), ('s.o1', 's.w'), ('s.o2', 's.q.p.b'), ('s.x[2:6]', 's.p.a'), ('s.o3', 's.x[3:5]')])
+D['slice_writer_mixed_readers'] = ('''
+    s.in_ = InPort(8); s.a = Wire(4); s.b = Wire(4); s.st = Wire(In2); s.o1 = OutPort(4); s.o2 = OutPort(4); s.o3 = OutPort(4)
+''', [('s.a', 's.in_[2:6]'), ('s.st.b', 's.in_[2:6]'), ('s.b', 's.a'), ('s.o1', 's.b'), ('s.o2', 's.st.b'), ('s.o3', 's.in_[2:6]')])
+
 # connect statements executed inside child components (so that the connection graph can be written down without pymtl3)
 EXTRA_EDGES = {'hier3': [('s.m.l.in_', 's.m.in_'), ('s.m.out', 's.m.l.out'), ('s.p.out', 's.p.in_')]}
 
@@ -138,7 +153,10 @@ WRITERS = {
   'const_parts': ['CONST:10', 'CONST:3', 'CONST:5', 's.in_[0:4]', 's.in_[4:8]', 's.l.out', 's.st', 's.w'],   # constants into a slice, a field, a child's port slice
   'slice_of_slice': ['s.x[2:10]', 's.x[4:8]'],                   # s.x[2:12][2:6] IS s.x[4:8]; both overlap block-written slices
   'piecewise_then_whole': ['s.in_[4:8]', 's.p', 's.q.a', 's.q.b[1:3]'],   # s.p: one field by a block, one by a net -> driven relative; s.q driven whole by s.p, so its parts drive
-  'equal_constants': ['CONST:5', 'CONST:5', 'CONST:5'],           # every literal is its own constant: three separate nets
+  'equal_constants': ['CONST:5', 'CONST:5', 'CONST:5'],
+  'field_writer_mixed_readers': ['s.in_.a'],                      # a field of the top-level input
+  'block_field_writer_mixed_readers': ['s.p.a', 's.x[3:5]'],      # the block-written field; s.x[3:5] overlaps the net-driven s.x[2:6]
+  'slice_writer_mixed_readers': ['s.in_[2:6]'],           # every literal is its own constant: three separate nets
 }
 
 
